@@ -3,7 +3,8 @@
 correspondence with Ptk.Model.C20 / Ptk.Model.C20Chain + property oracle.
 
 Kinds of cases
-  proxy : a real StdoutProxy on a recording Vt100_Output(StringIO), driven step by step under an
+  proxy : (ops w f wbad close fl cb task run exit wake finish stop start newloop closeloop inval runexit exitrun
+          settle)  a real StdoutProxy on a recording Vt100_Output(StringIO), driven step by step under an
           explicit schedule: writer threads (real threads, one call each step), the real
           `patch-stdout-flush-thread` released one section at a time, a real Application
           (pipe input + the recording output) inside an asyncio loop that runs in its own
@@ -12,7 +13,13 @@ Kinds of cases
           subclass pauses in `_flush_queue.get`, `_get_app_loop`, `_write_and_flush`; the loop
           object handed to `_write_and_flush` is a thin stand-in whose `call_soon_threadsafe`
           forwards to the real loop at the scheduled `run` step (with the context captured at
-          call time), so "callback accepted" and "callback runs" are separate steps.
+          call time), so "callback accepted" and "callback runs" are separate steps.  The loop itself is a
+          SelectorEventLoop subclass (ParkLoop) that, while told so, holds back the FIRST step of the task
+          `run_in_terminal` makes, so "callback runs (task made)" and "task starts" are separate steps too;
+          a background task of the application (user-level API) that ends only when told keeps `run_async`
+          in `cancel_and_wait_for_background_tasks()`, so "run_async wakes up" and "run_async returns" are
+          separate steps.  `runexit` / `exitrun` use none of this: callback and `Application.exit()` in one
+          real loop callback, the loop's own FIFO order decides the rest.
   chain : `in_terminal` sections (some with a body that stays open across awaits) in a real
           running Application; compared with Ptk.Model.C20Chain.
   soak  : free running threads against an unmodified StdoutProxy (no gates), without / with a
@@ -32,6 +39,7 @@ import re
 import sys
 import threading
 import time
+import weakref
 
 sys.path.insert(0, os.path.dirname(os.path.abspath(__file__)))
 import core
@@ -49,17 +57,30 @@ from prompt_toolkit.patch_stdout import StdoutProxy
 
 ID = "C20"
 DRIVER = "drv_c20"
-PROPS = ["Ptk.Props.C20", "Ptk.Props.C20Chain", "Ptk.Props.C20ChainLemmas", "Ptk.Props.C20Lock"]
+PROPS = ["Ptk.Props.C20", "Ptk.Props.C20Task", "Ptk.Props.C20Term", "Ptk.Props.C20Chain", "Ptk.Props.C20ChainLemmas",
+         "Ptk.Props.C20Lock"]
 SERIAL = False
 ANCHORS = ["src/prompt_toolkit/patch_stdout.py", "src/prompt_toolkit/application/run_in_terminal.py",
            "src/prompt_toolkit/application/application.py", "src/prompt_toolkit/application/current.py"]
-LEVEL_TEXT = ("Lean 4 theorems over two executable transition-system models with atomic steps at lock / event-loop "
+LEVEL_TEXT = ("Lean 4 theorems over three executable transition-system models with atomic steps at lock / event-loop "
               "granularity, for ANY number of threads and ANY interleaving (induction over arbitrary step lists): "
               "(a) StdoutProxy (write/flush under the RLock, line buffer, flush queue, the flush thread's sections, "
-              "hand-off to the application loop, application start/stop, loop close/replace): stream_invariant, "
-              "exactly_once_after_flush, write_contiguous, segments_tile, per_thread_order, conservation (all schedules), "
-              "inside_bracket / text_never_on_prompt / section_shape, flusher_alive, flush_then_settle_delivers (arrival); "
-              "close_delivers, no_newline_in_buffer; "
+              "hand-off to the application loop; the loop callback in which run_in_terminal makes its task and the task's "
+              "first step as SEPARATE steps; application start, exit(), wake-up of run_async (render done, _is_running "
+              "False, cancel_and_wait_for_background_tasks) and return of run_async as separate steps; loop "
+              "close/replace): stream_invariant, exactly_once_after_flush, write_contiguous, segments_tile, "
+              "per_thread_order, conservation (all schedules), inside_bracket / text_never_on_prompt / section_shape, "
+              "flusher_alive, flush_then_settle_delivers (arrival), close_delivers, no_newline_in_buffer; "
+              "handed_over_written_once / handed_over_delivered / loop_delivers / stop_before_between_after (text handed "
+              "to the loop is written exactly once, in hand-over order, wherever exit(), the wake-up and the return of "
+              "run_async fall between the callback and the first step of its task), no_task_registered / "
+              "stop_keeps_tasks, winding_phase_goes_through_loop, output_is_prefix (in order at every moment, not only "
+              "after the flush), and registered_task_cancelled_witness (the same code "
+              "with the task registered as a background task of the application loses the text: seeded C20-f); "
+              "terminal_receives_written_text / nonraw_output_has_no_escape over constants regenerated from the code "
+              "(autowrap sequence, ESC replacement, line-break set; gen_ok); bad_write_changes_nothing; "
+              "closed_proxy_writes_nothing (after close() nothing more is written: writes racing with close() "
+              "are kept for ever); "
               "(b) in_terminal with the _running_in_terminal_f chain and sections open across awaits: chain_mutex, chain_fifo, "
               "sections_do_not_overlap, prompt_untouched_in_section, section_starts_after_erase; "
               "(c) write/flush split into their shared-state steps with the lock as a model variable: lock_mutex, "
@@ -69,19 +90,26 @@ LEVEL_TEXT = ("Lean 4 theorems over two executable transition-system models with
               "which the property is FALSE of the current code are refuted on concrete schedules in Lean and replayed on the "
               "real code (known findings K1-K3). Tied to /repo on every run by a differential correspondence (real "
               "StdoutProxy, real threads and a real Application in an asyncio loop thread, driven step by step under "
-              "enforced schedules; free-running soak) and the property oracle. PARTIAL: lock/queue linearizability and "
-              "the event-loop hand-off are assumptions")
+              "enforced schedules - incl. the first step of run_in_terminal's task and the return of run_async held back "
+              "by the harness, and the same schedules produced by the loop's own FIFO order; free-running soak) and the "
+              "property oracle. PARTIAL: lock/queue linearizability and the event-loop hand-off are assumptions")
 LEVEL_NOTE = ("trusted: Lean kernel, axioms propext/Classical.choice/Quot.sound only; hand-written models (validated by "
               "the correspondence, not proved equal to the Python); threading.RLock / queue.Queue linearizability, asyncio "
-              "runs callbacks FIFO and atomically between awaits; steps are atomic at the granularity of the model "
-              "(real preemption inside a step is not modelled); the schedule gates of the harness")
+              "runs callbacks and first steps of tasks FIFO and atomically between awaits; steps are atomic at the "
+              "granularity of the model (real preemption inside a step is not modelled); the schedule gates of the harness "
+              "(gated StdoutProxy subclass, loop stand-in, ParkLoop, holder background task)")
 TECHNIQUE = "Lean 4 proof over hand-written executable model + differential correspondence with the real code"
-RULE = ("proxy: every op sequence up to the tier's length over {write a / b\\n / '' / c\\nd from 2 threads, flush, flush-thread "
-        "step} without application, and over {write, flush-thread step, loop step, start, stop, close loop, new loop} after "
-        "5 prefixes that put the flush thread / the loop in each of their hand-off states, each followed by flush + settle; "
-        "then seeded random schedules (1-4 threads, up to 60 ops, data with several newlines, ESC, wide chars, raw on/off, "
+RULE = ("proxy: every op sequence up to the tier's length over {write a / b\\n / '' / c\\nd from 2 threads, write(bytes), flush, "
+        "flush-thread step} without application; over {write, flush-thread step, loop runs freely, callback only, task "
+        "step, start, exit(), wake-up, return, full stop, close loop, new loop, invalidate} after 9 prefixes that put the "
+        "flush thread / the loop / the application in each of their hand-off states (incl. task made but not started - with and without a running application -, "
+        "run_async winding down); over {callback, task step, exit(), wake-up, return, start, the two one-loop-turn "
+        "schedules runexit / exitrun, flush-thread step} after two batches were handed over; each followed by flush + "
+        "settle; then seeded random schedules (1-4 threads, up to 60 ops, data with several newlines, ESC, wide chars, "
+        "non-str writes, raw on/off, "
         "default and create_app_session sessions, close()), half of them adversarial (arbitrary interleaving of stop / "
-        "loop close / start) and half calm; chain: every op sequence up to the tier's length over {enter sync, enter open, "
+        "wake-up / return / loop close / start / task steps) and half calm; chain: every op sequence up to the tier's "
+        "length over {enter sync, enter open, "
         "leave 0..2, stop, start, invalidate, exit()} + random; lock: random interleavings of up to 4 threads paused inside "
         "`with self._lock:` (entry of _write/_flush and before they return), incl. calls made while the lock is held "
         "(must block until the holder leaves); soak: free-running writer threads on an unmodified StdoutProxy (no "
@@ -91,38 +119,74 @@ RULE = ("proxy: every op sequence up to the tier's length over {write a / b\\n /
         "section, any soak case")
 EXHAUSTIVE = True
 EXHAUSTIVE_SCOPE = {
-    "quick": "proxy without app: all sequences len<=3 over 6 ops; with app: 5 prefixes x all sequences len<=2 over 9 ops; "
+    "quick": "proxy without app: all sequences len<=3 over 7 ops; with app: 9 prefixes x all sequences len<=2 over 13 ops; "
+             "hand-off vs shutdown: all sequences len<=3 over 9 ops after two accepted batches; "
              "chain: all sequences len<=3 over 9 ops",
-    "thorough": "proxy without app: all sequences len<=5 over 6 ops; with app: 3 prefixes x all sequences len<=4 and 2 prefixes x len<=3 over 9 ops; "
-                "chain: all sequences len<=4 over 9 ops",
+    "thorough": "proxy without app: all sequences len<=5 over 7 ops; with app: 9 prefixes x all sequences len<=3 over 13 ops; "
+                "hand-off vs shutdown: all sequences len<=4 over 9 ops; chain: all sequences len<=4 over 9 ops",
 }
 TRUSTED = ["harness/c20.py compares, after every scheduled step, the terminal events (erase / render / render-done / "
            "enable_autowrap+write+flush) received by a recording Vt100_Output and Renderer, _buffer, the queue items, the "
-           "flush thread's position and locals, accepted-but-not-run callbacks, app/loop state; at the end the output text "
+           "flush thread's position and locals, accepted-but-not-run callbacks, made-but-not-started run_in_terminal "
+           "tasks, app / exit-requested / winding-down / loop state; at the end the output text "
            "and (without application) the exact StringIO content",
            "Ptk/Model/C20.lean, C20Chain.lean, C20Lock.lean are hand translations of patch_stdout.py / run_in_terminal.py / the parts of "
-           "application.py they use (correspondence-checked)",
+           "application.py they use (correspondence-checked; the functions are listed in MODELLED and hash-pinned)",
+           "harness/gen_c20.py probes Vt100_Output.enable_autowrap / write / write_raw and StdoutProxy._write of the current "
+           "tree (no threads) and prints what it sees into Ptk/Gen/C20.lean",
            "the schedule gates (StdoutProxy subclass pausing in _flush_queue.get / _get_app_loop / _write_and_flush; loop "
            "stand-in that forwards call_soon_threadsafe to the real loop at the scheduled step with the context captured at "
-           "call time) pause threads only at synchronisation points; they do not change what the code computes"]
+           "call time; ParkLoop = SelectorEventLoop whose call_soon holds back the first step of a run_in_terminal task "
+           "until the scheduled step; a background task of the application that ends when told, which keeps run_async "
+           "inside cancel_and_wait_for_background_tasks) pause threads / callbacks only at synchronisation points; they "
+           "do not change what the code computes. The held-back schedules are cross-checked by runexit / exitrun, which "
+           "use the loop's own FIFO order only. The flush queue's put() delays an item only when a writer calls it "
+           "WITHOUT holding the proxy lock (never with the code as it is): the item then arrives after the next complete "
+           "call of another thread, which is a legal preemption of a thread that is outside the lock"]
 ASSUMPTIONS = ["threading.RLock admits one owner at a time (checked at run time: _is_owned inside _write/_flush, a second "
                "caller blocks while a thread is paused inside the block); queue.Queue is a linearizable FIFO; the "
                "get()+get_nowait() drain of the flush thread is atomic w.r.t. put()",
-               "an asyncio loop runs accepted callbacks in FIFO order, each atomically up to its first real suspension; a "
-               "closed loop raises RuntimeError from call_soon_threadsafe and drops what it had accepted",
-               "Application.run_async start (first render) and stop (render done, _is_running False, app removed from the "
-               "session) are atomic for the other threads",
+               "an asyncio loop runs accepted callbacks and the first steps of tasks in FIFO order, each atomically up to "
+               "its first real suspension; a closed loop raises RuntimeError from call_soon_threadsafe and drops what it "
+               "had accepted and the tasks that did not start",
+               "Application.run_async: the start (_is_running, AppSession.app, app.loop set, first render) is atomic for the "
+               "other threads; the shutdown is two atomic steps: wake-up (render done, _is_running False, background tasks "
+               "cancelled) and return (app removed from the session, app.loop None)",
                "the Output object is used by one thread at a time (Vt100_Output.write/flush are not thread-safe themselves)",
-               "lone surrogates and non-str data are outside the alphabet"]
+               "lone surrogates are outside the alphabet; non-str data: only objects for which `'\\n' in data` raises "
+               "TypeError (bytes, None, numbers)"]
 PARTIAL_SCOPE = ["preemption inside write/flush is modelled only down to the shared-state steps of C20Lock (read buffer, assign "
                  "buffer, put); the RLock itself, list.append and Queue.put/get are atomic by assumption", "sleep_between_writes only delays; it is 0 in gated runs",
-                 "K1: loop closed while it holds accepted callbacks -> text lost (theorems assume `calm`)",
-                 "K2: direct write from the flush thread while accepted callbacks wait -> order swapped (`calm`)",
+                 "K1: loop closed while it holds accepted callbacks, or tasks made by run_in_terminal that did not start "
+                 "-> text lost (theorems assume `calm`). No small repair: needs an acknowledgement from the loop to the flush "
+                 "thread; waiting for it blocks the flush thread (and close()) for ever on a loop that is stopped but never "
+                 "closed",
+                 "K2: direct write from the flush thread while accepted callbacks / tasks wait -> order swapped (`calm`). "
+                 "Writing through the last seen loop while it is_running() would narrow it to K1's window but delays prints "
+                 "between two applications on one loop; not a maintainer-neutral patch",
                  "K3: application starts between `_get_app_loop() is None` and the direct write -> text on the drawn "
-                 "prompt (`startCalm`)",
+                 "prompt (`startCalm`); needs a lock shared with Application.run_async",
                  "several event loops alive at the same time (applications in different threads) are not modelled: one "
-                 "current loop", "CPR waiting in in_terminal, render_cli_done=True, in_executor=True bodies: only through "
-                 "the open-section chain model", "Windows outputs, isatty/fileno/encoding passthrough not modelled"]
+                 "current loop; a second run_async of the same Application while the first winds down is not modelled",
+                 "CPR waiting in in_terminal / run_async, render_cli_done=True, in_executor=True bodies: only through "
+                 "the open-section chain model; the proxy model assumes no other in_terminal section is open when its task runs",
+                 "write() with a list / tuple / dict of strings is accepted silently and makes a later flush() raise (observed; "
+                 "outside the property's alphabet)",
+                 "Windows outputs, isatty/fileno/encoding passthrough not modelled"]
+MODELLED = {
+    "src/prompt_toolkit/patch_stdout.py": [
+        "StdoutProxy.write", "StdoutProxy.flush", "StdoutProxy._write", "StdoutProxy._flush", "StdoutProxy.close",
+        "StdoutProxy._start_write_thread", "StdoutProxy._write_thread", "StdoutProxy._get_app_loop",
+        "StdoutProxy._write_and_flush", "StdoutProxy._write_and_flush.write_and_flush",
+        "StdoutProxy._write_and_flush.write_and_flush_in_loop"],
+    "src/prompt_toolkit/application/run_in_terminal.py": ["run_in_terminal", "run_in_terminal.run", "in_terminal"],
+    "src/prompt_toolkit/application/application.py": [
+        # run_async: the ExitStack (set_is_running, set_loop, set_app, create_future), `await f` and the `finally:` parts
+        # (render done, _is_running False, wait for the run-in-terminal chain, cancel background tasks); the input
+        # handling inside `_run_async` is not modelled
+        "Application.run_async", "Application.run_async.set_loop", "Application.run_async.set_is_running",
+        "Application.cancel_and_wait_for_background_tasks", "Application.exit"],
+}
 
 TIMEOUT = float(os.environ.get("VERIF_C20_TIMEOUT", "10"))
 
@@ -131,8 +195,46 @@ class RigTimeout(Exception):
     pass
 
 
+def retry_on_timeout(run):
+    """A call into the event-loop thread (`LoopThread.call`: a coroutine of a few `sleep(0)` steps) that does not
+    come back within TIMEOUT is an infrastructure problem - seen on a badly overloaded machine (load 90 on 16
+    cores), never otherwise - not a verdict: the case is run once more, on a fresh rig and with three times the
+    patience.  A real hang of the code under test hangs again and is reported.  Other timeouts (a writer that
+    blocks, a lock that is not handed over, ...) are what mutated code produces; they are not retried."""
+    import functools
+
+    @functools.wraps(run)
+    def wrapper(*a, **k):
+        global TIMEOUT
+        res = run(*a, **k)
+        rec = res[1] if isinstance(res, tuple) else res
+        if not any(str(e).startswith("timeout: loop") for e in rec.get("errors", ())):
+            return res
+        old = TIMEOUT
+        TIMEOUT = old * 3
+        try:
+            return run(*a, **k)
+        finally:
+            TIMEOUT = old
+    return wrapper
+
+
 def _noop():
     pass
+
+
+def _debug_dump(what):
+    """VERIF_C20_DEBUG=<file>: append the stacks of all threads when a rig operation times out"""
+    path = os.environ.get("VERIF_C20_DEBUG")
+    if not path:
+        return
+    import traceback
+    with open(path, "a") as f:
+        f.write("==== %s pid=%d\n" % (what, os.getpid()))
+        names = {t.ident: t.name for t in threading.enumerate()}
+        for ident, frame in sys._current_frames().items():
+            f.write("-- thread %s\n" % names.get(ident, ident))
+            f.write("".join(traceback.format_stack(frame)[-8:]))
 
 
 # ------------------------------------------------------------------ recording output
@@ -196,6 +298,32 @@ def wrap_renderer(rig, app):
 
 
 # ------------------------------------------------------------------ event loop in a thread
+RIT_FILE = "application/run_in_terminal.py"
+
+
+class ParkLoop(asyncio.SelectorEventLoop):
+    """The event loop the application runs on.  It is the ordinary selector loop; the only difference: while
+    `rig.park` is set (= while the hand-over callback of step `cb` runs), the FIRST step of a task whose coroutine
+    is defined in application/run_in_terminal.py (today: `run_in_terminal`'s `run()`) is not put into the ready
+    queue but parked in `rig.parked`, and put there when the schedule says `task`.  (However the task was made:
+    `ensure_future`, `loop.create_task`, `app.create_background_task` all end in
+    `loop.call_soon(<step of the task>)`.)  Everything else passes through untouched."""
+
+    rig = None
+
+    def call_soon(self, callback, *args, context=None):
+        rig = self.rig
+        if rig is not None and rig.park:
+            task = getattr(callback, "__self__", None)
+            if isinstance(task, asyncio.Task) and task not in rig.seen_tasks:
+                code = getattr(task.get_coro(), "cr_code", None)
+                if getattr(code, "co_filename", "").replace("\\", "/").endswith(RIT_FILE):
+                    rig.seen_tasks.add(task)
+                    rig.parked.append((self, task, callback, args, context, rig.cb_text))
+                    return asyncio.Handle(_noop, (), self)
+        return super().call_soon(callback, *args, context=context)
+
+
 class LoopThread:
     def __init__(self, rig, gen):
         self.rig = rig
@@ -212,7 +340,8 @@ class LoopThread:
             raise RigTimeout("loop start")
 
     def _main(self):
-        loop = asyncio.new_event_loop()
+        loop = ParkLoop()
+        loop.rig = self.rig
         self.loop = loop
         self.quit = loop.create_future()
         self.ready.set()
@@ -232,6 +361,7 @@ class LoopThread:
             return fut.result(TIMEOUT)
         except Exception as e:
             if isinstance(e, (TimeoutError, asyncio.TimeoutError)) or type(e).__name__ == "TimeoutError":
+                _debug_dump("loop call " + getattr(coro, "__qualname__", "?"))
                 raise RigTimeout("loop call")
             raise
 
@@ -289,6 +419,19 @@ class GatedQueue(queue.Queue):
             self.rig.gate("get")
         return super().get(block, timeout)
 
+    def put(self, item, block=True, timeout=None):
+        rig = self.rig
+        name = threading.current_thread().name
+        proxy = getattr(rig, "proxy", None)
+        if name.startswith("writer-") and not rig.free and proxy is not None and not proxy._lock._is_owned():
+            # Never reached with the code as it is (`put` happens inside `with self._lock:`).  A thread that has
+            # left the lock can be preempted for any length of time before its next statement: the item reaches
+            # the queue after the next complete call of another thread (`Rig.deliver_late`).
+            rig.notes.append("put-outside-lock")
+            rig.late_puts.append((name, item))
+            return
+        return super().put(item, block, timeout)
+
 
 class GatedProxy(StdoutProxy):
     def __init__(self, rig, **kw):
@@ -328,7 +471,8 @@ class GatedProxy(StdoutProxy):
     def _write_and_flush(self, loop, text):
         self.rig.gate("emit", loop, text)
         self.rig.emit_text = text
-        if loop is None and self.rig.pending:
+        if loop is None and (self.rig.pending or self.rig.parked):
+            # accepted callbacks, or the tasks they made, still wait in the loop
             self.rig.notes.append("direct-with-pending")
         return super()._write_and_flush(loop, text)
 
@@ -349,6 +493,13 @@ class Rig:
         self.fl_permit = threading.Semaphore(0)
         self.emit_text = None
         self.pending = []
+        self.park = False        # ParkLoop parks the first step of run_in_terminal tasks while this is set
+        self.parked = []         # (loop, task, step callback, args, context, text), oldest first
+        self.seen_tasks = weakref.WeakSet()
+        self.cb_text = None
+        self.late_puts = []      # (thread name, item): queue items put by a writer that no longer held the lock
+        self.hold_gate = None    # asyncio.Event the holder task waits for while run_async winds down
+        self.hold = False
         self.lost = []
         self.notes = []
         self.loops = []          # LoopThread objects, newest last
@@ -459,6 +610,14 @@ class Rig:
                             self.proxy.write(cmd[1])
                         elif cmd[0] == "f":
                             self.proxy.flush()
+                        elif cmd[0] == "wbad":
+                            try:
+                                self.proxy.write(cmd[1])
+                                self.notes.append("bad-write-accepted")
+                            except TypeError:
+                                pass
+                            except Exception as e:
+                                self.notes.append("bad-write-raised:" + type(e).__name__)
                         elif cmd[0] == "ww":      # free running: a whole list of writes
                             for d in cmd[1]:
                                 self.proxy.write(d)
@@ -474,6 +633,19 @@ class Rig:
         q, done, _ = self.writer(t)
         done.clear()
         q.put(("w", data))
+        if not done.wait(TIMEOUT):
+            raise RigTimeout("write blocked")
+
+    # objects for which `"\n" in data` raises TypeError.  (A list / tuple / dict of strings does NOT raise there:
+    # write(["a"]) is silently appended to the line buffer and makes a later flush() raise in "".join - observed,
+    # outside the property's alphabet, not claimed.)
+    BAD = [b"x\n", None, 5, b"", 2.5]
+
+    def do_write_bad(self, t, kind):
+        """write() with something that is not a str"""
+        q, done, _ = self.writer(t)
+        done.clear()
+        q.put(("wbad", self.BAD[kind % len(self.BAD)]))
         if not done.wait(TIMEOUT):
             raise RigTimeout("write blocked")
 
@@ -496,6 +668,16 @@ class Rig:
             if time.time() - t0 > TIMEOUT:
                 raise RigTimeout("close did not enqueue")
             time.sleep(0.0005)
+
+    def deliver_late(self, exclude=None):
+        """the preempted writers (see GatedQueue.put) get on: their items reach the queue now"""
+        keep = []
+        for name, item in self.late_puts:
+            if name == exclude:
+                keep.append((name, item))
+            else:
+                queue.Queue.put(self.proxy._flush_queue, item)
+        self.late_puts[:] = keep
 
     # -- loops and application
     def cur_loop(self):
@@ -526,12 +708,24 @@ class Rig:
             self.notes.append("start-in-direct-window")
         self.ensure_app()
 
+        async def holder():
+            # a background task of the application (user-level API): when `run_async` cancels its
+            # background tasks and waits for them, this one ends only when the schedule says `finish`
+            try:
+                await asyncio.Event().wait()
+            except asyncio.CancelledError:
+                gate = self.hold_gate
+                if self.hold and gate is not None:
+                    await gate.wait()
+
         async def go():
+            self.hold_gate = asyncio.Event()
             self.app_task = asyncio.ensure_future(self.app.run_async())
             for _ in range(100):
                 await asyncio.sleep(0)
                 if self.app._is_running and self.session.app is self.app:
                     break
+            self.app.create_background_task(holder())
             for _ in range(4):
                 await asyncio.sleep(0)
 
@@ -539,14 +733,87 @@ class Rig:
         if self.session.app is not self.app:
             raise RigTimeout("application did not start")
 
-    def stop_app(self):
-        if not self.app_on():
+    def running(self):
+        app = self.app
+        return app is not None and self.session.app is app and app._is_running
+
+    def winding(self):
+        """`run_async` has drawn the done state and reset `_is_running`, but has not returned"""
+        app = self.app
+        return app is not None and self.session.app is app and not app._is_running
+
+    def _release_cancelled(self):
+        """a parked task that was cancelled meanwhile (only possible when the task is one of the application's
+        background tasks) gets its step: the step does nothing but end the task, and `run_async` waits for it"""
+        keep = []
+        for item in self.parked:
+            loop, task, cb, args, ctx, text = item
+            if task.cancelling() > 0:
+                loop.call_soon(cb, *args, context=ctx)
+                self.notes.append("parked-task-cancelled")
+            else:
+                keep.append(item)
+        self.parked[:] = keep
+
+    def wake(self):
+        """`Application.exit()` + the wake-up of `run_async`: final rendering, `_is_running = False`,
+        `cancel_and_wait_for_background_tasks()` - where it stays (the holder task) until `finish`"""
+        if not self.running():
+            return
+        lt = self.cur_loop()
+        app = self.app
+
+        async def go():
+            self.hold = True
+            self._restore_future()
+            app.exit()
+            for _ in range(200):
+                await asyncio.sleep(0)
+                if not app._is_running:
+                    break
+            for _ in range(6):
+                self._release_cancelled()
+                await asyncio.sleep(0)
+
+        lt.call(go())
+        if app._is_running:
+            raise RigTimeout("run_async did not wake up")
+
+    def finish(self):
+        """`run_async` returns"""
+        if not self.winding():
             return
         lt = self.cur_loop()
 
         async def go():
+            self.hold = False
+            self.hold_gate.set()
+            for _ in range(100000):
+                if self.app_task.done():
+                    break
+                self._release_cancelled()
+                await asyncio.sleep(0)
+            await self.app_task
+
+        lt.call(go())
+
+    def stop_app(self):
+        if not self.app_on():
+            return
+        if self.winding():
+            self.finish()
+            return
+        lt = self.cur_loop()
+
+        async def go():
+            self.hold = False
             self._restore_future()
             self.app.exit()
+            for _ in range(100000):
+                if self.app_task.done():
+                    break
+                self._release_cancelled()
+                await asyncio.sleep(0)
             await self.app_task
 
         lt.call(go())
@@ -581,13 +848,17 @@ class Rig:
         lt.call(go())
         self.exit_requested = True
 
-    def run_exit(self):
-        """one real loop turn: the oldest accepted callback, `Application.exit()` queued right behind it;
-        the task the callback creates then runs before `run_async` resumes"""
+    def run_exit(self, exit_first=False):
+        """one real loop turn, no parking: the oldest accepted callback and `Application.exit()` in ONE loop
+        callback.  exit_first=False: the callback first - the task it makes is queued before the wake-up of
+        `run_async` and runs in the exit-requested phase.  exit_first=True: `exit()` first - the wake-up of
+        `run_async` is queued before the task's first step, `run_async` finishes (and cancels its background
+        tasks) while the task has not started."""
+        self.release_all()
         app = self.app
-        running = app is not None and self.session.app is app and app._is_running
-        if not running:
+        if not self.running():
             self.run_pending()
+            self.stop_app()
             return
         if not self.pending:
             self.stop_app()
@@ -595,10 +866,16 @@ class Rig:
         lt, cb, args, ctx, text = self.pending.pop(0)
 
         def both():
-            ctx.run(cb, *args)
-            self._restore_future()
-            app.exit()
+            if exit_first:
+                self._restore_future()
+                app.exit()
+                ctx.run(cb, *args)
+            else:
+                ctx.run(cb, *args)
+                self._restore_future()
+                app.exit()
 
+        self.hold = False
         lt.loop.call_soon_threadsafe(both)
 
         async def wait():
@@ -606,6 +883,33 @@ class Rig:
 
         lt.call(wait())
         lt.barrier()
+
+    # -- tasks made by run_in_terminal
+    def cb_only(self):
+        """the oldest accepted callback runs; the first step of the task it makes is parked"""
+        if not self.pending:
+            return
+        lt, cb, args, ctx, text = self.pending.pop(0)
+        self.cb_text = text
+        self.park = True
+        try:
+            lt.loop.call_soon_threadsafe(cb, *args, context=ctx)
+            lt.barrier()
+        finally:
+            self.park = False
+
+    def task_step(self):
+        """the oldest parked task gets its first step"""
+        if not self.parked:
+            return
+        loop, task, cb, args, ctx, text = self.parked.pop(0)
+        lt = next(l for l in self.loops if l.loop is loop)
+        loop.call_soon_threadsafe(cb, *args, context=ctx)
+        lt.barrier()
+
+    def release_all(self):
+        while self.parked:
+            self.task_step()
 
     def invalidate(self):
         """Application.invalidate() and the redraw it schedules"""
@@ -626,6 +930,8 @@ class Rig:
         lt.barrier(3)
 
     def run_pending(self):
+        """the loop runs freely: the tasks that wait, then the oldest accepted callback and the task it makes"""
+        self.release_all()
         if not self.pending:
             return
         lt, cb, args, ctx, text = self.pending.pop(0)
@@ -637,18 +943,31 @@ class Rig:
         if lt is None or self.app_on():
             return
         lt.stop_running()
-        # the callbacks the loop had accepted are in its ready queue when it is closed
+        # the tasks that did not start and the callbacks the loop had accepted are in its ready queue when it
+        # is closed
+        dropped = []
+        for (loop, task, cb, args, ctx, text) in self.parked:
+            task._log_destroy_pending = False
+            loop.call_soon_threadsafe(cb, *args, context=ctx)
+            self.lost.append(text)
+            self.notes.append("closed-with-pending")
+            dropped.append(task)
+        self.parked = []
         for (l2, cb, args, ctx, text) in self.pending:
             l2.loop.call_soon_threadsafe(cb, *args, context=ctx)
             self.lost.append(text)
             self.notes.append("closed-with-pending")
         self.pending = []
         lt.close()
+        for task in dropped:
+            task.get_coro().close()      # nobody will ever run it (only silences "never awaited")
 
     def settle(self, limit=100000):
         for _ in range(limit):
-            if self.pending:
-                self.run_pending()
+            if self.parked:
+                self.task_step()
+            elif self.pending:
+                self.cb_only()
             elif self.fl_enabled():
                 self.fl_step()
             else:
@@ -667,9 +986,10 @@ class Rig:
         lt = self.loops[-1] if self.loops else None
         lopen = 1 if (lt is not None and not lt.loop.is_closed()) else 0
         app = 1 if (self.session.app is not None and self.session.app._is_running) else 0
-        return ("buf=%s q=%s fl=%s pend=%s lost=%s app=%d exit=%d loop=%d/%d" % (
-            enc_str("".join(p._buffer)), q, self.fl_pc(), enc_list([x[4] for x in self.pending], enc_str),
-            enc_list(self.lost, enc_str), app, 1 if self.is_done() else 0, self.gen, lopen))
+        return ("buf=%s q=%s fl=%s pend=%s tasks=%s lost=%s app=%d exit=%d wind=%d loop=%d/%d" % (
+            enc_str("".join(x if isinstance(x, str) else repr(x) for x in p._buffer)), q, self.fl_pc(),
+            enc_list([x[4] for x in self.pending], enc_str), enc_list([x[5] for x in self.parked], enc_str),
+            enc_list(self.lost, enc_str), app, 1 if self.is_done() else 0, 1 if self.winding() else 0, self.gen, lopen))
 
     # -- teardown: never hangs
     def teardown(self):
@@ -686,6 +1006,14 @@ class Rig:
 
         # deliver what is parked, stop the application, close the proxy, close the loops
         def deliver():
+            self.park = False
+            for (loop, task, cb, args, ctx, text) in self.parked:
+                task._log_destroy_pending = False
+                try:
+                    loop.call_soon_threadsafe(cb, *args, context=ctx)
+                except RuntimeError:
+                    pass
+            self.parked = []
             for (lt, cb, args, ctx, text) in self.pending:
                 try:
                     lt.loop.call_soon_threadsafe(cb, *args, context=ctx)
@@ -751,6 +1079,8 @@ def op_line(op):
         return "w %d %s" % (op[1], enc_str(op[2]))
     if k == "f":
         return "f %d" % op[1]
+    if k == "wbad":
+        return "wbad %d" % op[1]
     if k == "center":
         return "center %d" % op[1]
     if k == "cstep":
@@ -790,8 +1120,20 @@ def apply_proxy_op(rig, op):
         rig.do_close()
     elif k == "fl":
         rig.fl_step()
+    elif k == "wbad":
+        rig.do_write_bad(op[1], op[2])
     elif k == "run":
         rig.run_pending()
+    elif k == "cb":
+        rig.cb_only()
+    elif k == "task":
+        rig.task_step()
+    elif k == "wake":
+        rig.wake()
+    elif k == "finish":
+        rig.finish()
+    elif k == "exitrun":
+        rig.run_exit(exit_first=True)
     elif k == "start":
         rig.start_app()
     elif k == "stop":
@@ -815,11 +1157,12 @@ def apply_proxy_op(rig, op):
 def filter_lifecycle(op, evs):
     # the application's own start-up / shut-down writes (cursor shape, bracketed paste ...) are not
     # emissions of the proxy: keep only the renderer operations of a start / stop step
-    if op[0] in ("start", "stop", "cstart", "cstop", "inval", "cinval"):
+    if op[0] in ("start", "stop", "wake", "finish", "cstart", "cstop", "inval", "cinval"):
         return [e for e in evs if e[0] in ("E", "D", "X", "B", "b")]
     return evs
 
 
+@retry_on_timeout
 def run_proxy_case(case, ops=None, finish=False):
     """Run the schedule on the real code.  -> (protocol lines, record for the oracle)."""
     ops = case["ops"] if ops is None else ops
@@ -830,7 +1173,11 @@ def run_proxy_case(case, ops=None, finish=False):
     try:
         lines.append(" | " + rig.state_line())
         for op in ops:
+            if op[0] in ("fl", "settle", "close"):
+                rig.deliver_late()
             apply_proxy_op(rig, op)
+            if op[0] in ("w", "f", "wbad"):
+                rig.deliver_late(exclude="writer-%d" % op[1])
             evs = filter_lifecycle(op, rig.take_events())
             rec["timeline"] += evs
             toks = canon_events(evs)
@@ -840,7 +1187,7 @@ def run_proxy_case(case, ops=None, finish=False):
         started = any(t == "D" for t in all_toks)
         quiescent = ("".join(rig.proxy._buffer) == ""
                      and not any(isinstance(i, str) and i for i in rig.proxy._flush_queue.queue)
-                     and rig.fl_pc() in ("idle", "exited") and not rig.pending)
+                     and rig.fl_pc() in ("idle", "exited") and not rig.pending and not rig.parked)
         lines.append("out=%s term=%s quiescent=%d" % (
             enc_str(text), "-" if started else enc_str(rig.out.sio.getvalue()), 1 if quiescent else 0))
         if finish:
@@ -848,6 +1195,7 @@ def run_proxy_case(case, ops=None, finish=False):
             closed = any(op[0] == "close" for op in ops)
             if not closed:
                 rig.do_flush(0)
+            rig.deliver_late()
             rig.settle()
             rec["timeline"] += rig.take_events()
             rec["fl_pc"] = rig.fl_pc()
@@ -907,6 +1255,8 @@ SIG_K3 = "StdoutProxy._write_and_flush | application started after the look-up f
 SIG_STREAM = "StdoutProxy | output differs from the writes in lock order"
 SIG_BRACKET = "in_terminal | text written while the prompt is drawn (no erase/redraw around it)"
 SIG_STUCK = "StdoutProxy | flushed text never reaches the output"
+SIG_CANCEL = ("run_in_terminal | task made for a handed-over text is cancelled by the application's shutdown before "
+              "its first step: text lost")
 SIG_OVERLAP = "in_terminal | sections overlap or the prompt is drawn inside a section"
 SIG_LOCK = "StdoutProxy.write/flush | line buffer touched without holding the lock"
 SIG_RIG = "harness | rig error"
@@ -963,6 +1313,8 @@ def classify_stream(out_text, expected, rec):
     if rec.get("fl_exc"):
         return SIG_DIED, "flush thread died with %s" % rec["fl_exc"]
     notes = rec.get("notes", [])
+    if "parked-task-cancelled" in notes and len(out_text) < len(expected):
+        return SIG_CANCEL, "the application cancelled a run_in_terminal task that had not started"
     if "closed-with-pending" in notes:
         return SIG_K1, "a loop was closed while it held accepted callbacks"
     if "direct-with-pending" in notes:
@@ -1113,6 +1465,7 @@ class ChainRig(Rig):
         return super().teardown()
 
 
+@retry_on_timeout
 def run_chain_case(case):
     rig = ChainRig(session=case.get("session", "default"))
     lines = []
@@ -1303,6 +1656,7 @@ class LockRig(Rig):
         return super().teardown()
 
 
+@retry_on_timeout
 def run_lock_case(case):
     rig = LockRig()
     lines = []
@@ -1317,7 +1671,9 @@ def run_lock_case(case):
                 rig.lbody(op[1])
             elif k == "lrel":
                 rig.lrel(op[1])
+                rig.deliver_late(exclude="writer-%d" % op[1])
             elif k == "lfl":
+                rig.deliver_late()
                 rig.settle()
             else:
                 raise ValueError(op)
@@ -1374,11 +1730,18 @@ def oracle_lock(case):
 TOKEN_RE = re.compile(r"\[(\d+):(\d+)([^\[\]]*)\]")
 
 
+@retry_on_timeout
 def run_soak_case(case):
     """mode: 'noapp' | 'app' (application runs the whole time) | 'startstop' (application stops and a
-    new one starts on a new loop while the writers run)"""
+    new one starts on a new loop while the writers run) | 'exitrace' (after the writer threads are done, code
+    running IN the event loop prints the last list of writes, keeps the loop busy for a moment - long enough
+    for the flush thread to hand the text over - and then calls Application.exit(): the wake-up of run_async is
+    queued right behind the hand-over callback)"""
     mode = case["mode"]
     writes = case["writes"]
+    loop_writes = []
+    if mode == "exitrace":
+        writes, loop_writes = writes[:-1], writes[-1]
     rig = Rig(raw=bool(case.get("raw", 0)), session=case.get("session", "default"), gated=False,
               sleep=case.get("sleep", 0.0), via_patch=case.get("via") == "patch")
     rec = {"errors": [], "mode": mode}
@@ -1425,6 +1788,27 @@ def run_soak_case(case):
                 rig.close_loop()
                 rig.new_loop()
                 rig.start_app()
+        if mode == "exitrace":
+            lt = rig.cur_loop()
+
+            async def bye():
+                for w in loop_writes:
+                    rig.proxy.write(w)
+                rig.proxy.flush()
+                time.sleep(case.get("busy", 0.03))     # the loop is busy; the flush thread hands over meanwhile
+                rig.app.exit()
+                await rig.app_task
+
+            lt.call(bye())
+            sent += sum(len(w) for w in loop_writes)
+            t0 = time.time()
+            while True:
+                got = sum(len(e[2]) for e in emissions(list(rig.events)))
+                if got >= sent and rig.proxy._flush_queue.qsize() == 0:
+                    break
+                if time.time() - t0 > TIMEOUT * 0.3:
+                    raise RigTimeout("output did not arrive after exit: %d of %d characters" % (got, sent))
+                time.sleep(0.002)
         if mode != "noapp":
             rig.stop_app()
         rec["timeline"] = list(rig.events)
@@ -1436,6 +1820,7 @@ def run_soak_case(case):
         rec["errors"] += rig.teardown()
     out_text = "".join(e[2] for e in emissions(rec["timeline"]))
     rec["out"] = out_text
+    writes = case["writes"]
     # per-thread projection: tokens [t:k...] in order of appearance
     per = {t: [] for t in range(len(writes))}
     pos = 0
@@ -1511,7 +1896,7 @@ def epilogue():
 
 
 def exhaustive_noapp(maxlen):
-    alpha = [["w", 0, "a"], ["w", 0, "b\n"], ["w", 1, ""], ["w", 1, "c\nd"], ["f", 1], ["fl"]]
+    alpha = [["w", 0, "a"], ["w", 0, "b\n"], ["w", 1, ""], ["w", 1, "c\nd"], ["f", 1], ["fl"], ["wbad", 1, 0]]
     for n in range(0, maxlen + 1):
         for seq in itertools.product(alpha, repeat=n):
             yield {"kind": "proxy", "raw": 0, "session": "default", "ops": [list(o) for o in seq] + epilogue()}
@@ -1523,16 +1908,34 @@ APP_PREFIXES = [
     [["newloop"], ["start"], ["w", 0, "x\n"], ["fl"], ["fl"], ["fl"]],         # callback accepted
     [["w", 0, "x\n"], ["fl"], ["fl"], ["newloop"]],                            # flush thread decided: direct
     [["newloop"], ["start"], ["stop"], ["w", 0, "x\n"], ["fl"]],
+    [["newloop"], ["start"], ["w", 0, "x\n"], ["fl"], ["fl"], ["fl"], ["cb"]],     # task made, not started
+    [["newloop"], ["start"], ["w", 0, "x\n"], ["fl"], ["fl"], ["fl"], ["wake"]],   # run_async winds down, callback waits
+    [["newloop"], ["start"], ["w", 0, "x\n"], ["fl"], ["fl"], ["stop"], ["fl"]],        # callback accepted, no application
+    [["newloop"], ["start"], ["w", 0, "x\n"], ["fl"], ["fl"], ["stop"], ["fl"], ["cb"]],  # task made while no application runs
 ]
+APP_ALPHA = [["w", 1, "y\n"], ["fl"], ["run"], ["start"], ["stop"], ["closeloop"], ["newloop"], ["inval"], ["exit"],
+             ["cb"], ["task"], ["wake"], ["finish"]]
 
 
 def exhaustive_app(maxlen):
-    alpha = [["w", 1, "y\n"], ["fl"], ["run"], ["start"], ["stop"], ["closeloop"], ["newloop"], ["inval"], ["exit"]]
     for ip, pre in enumerate(APP_PREFIXES):
-        for n in range(0, (maxlen if ip < 3 or maxlen < 4 else maxlen - 1) + 1):
-            for seq in itertools.product(alpha, repeat=n):
+        for n in range(0, maxlen + 1):
+            for seq in itertools.product(APP_ALPHA, repeat=n):
                 yield {"kind": "proxy", "raw": 0, "session": "default",
                        "ops": [list(o) for o in pre] + [list(o) for o in seq] + epilogue()}
+
+
+# the hand-off and the shutdown of the application: every order of {callback, its task, exit(), wake-up of
+# run_async, its return, restart} (+ the two one-turn schedules of the real loop) after a callback was accepted
+HANDOFF_ALPHA = [["cb"], ["task"], ["exit"], ["wake"], ["finish"], ["start"], ["runexit"], ["exitrun"], ["fl"]]
+
+
+def exhaustive_handoff(maxlen):
+    pre = [["newloop"], ["start"], ["w", 0, "x\n"], ["w", 1, "y\n"], ["fl"], ["fl"], ["fl"]]
+    for n in range(0, maxlen + 1):
+        for seq in itertools.product(HANDOFF_ALPHA, repeat=n):
+            yield {"kind": "proxy", "raw": 0, "session": "default",
+                   "ops": [list(o) for o in pre] + [list(o) for o in seq] + epilogue()}
 
 
 def random_proxy(rng, nops):
@@ -1541,9 +1944,11 @@ def random_proxy(rng, nops):
     closed = False
     weights = rng.choice([
         {"w": 6, "f": 1, "fl": 6, "run": 2, "start": 1, "stop": 1, "newloop": 1, "closeloop": 1, "settle": 1, "close": 0,
-         "inval": 1, "exit": 1, "runexit": 1},
+         "inval": 1, "exit": 1, "runexit": 1, "cb": 2, "task": 2, "wake": 1, "finish": 1, "exitrun": 1, "wbad": 1},
         {"w": 4, "f": 1, "fl": 5, "run": 3, "start": 2, "stop": 2, "newloop": 2, "closeloop": 2, "settle": 0, "close": 0,
-         "inval": 1, "exit": 2, "runexit": 1},
+         "inval": 1, "exit": 2, "runexit": 1, "cb": 3, "task": 2, "wake": 2, "finish": 2, "exitrun": 1},
+        {"w": 4, "f": 1, "fl": 6, "run": 1, "start": 2, "stop": 1, "newloop": 1, "closeloop": 0, "settle": 0, "close": 0,
+         "inval": 0, "exit": 2, "runexit": 1, "cb": 4, "task": 3, "wake": 3, "finish": 3, "exitrun": 2},
         {"w": 8, "f": 2, "fl": 8, "run": 0, "start": 0, "stop": 0, "newloop": 0, "closeloop": 0, "settle": 0, "close": 0},
         {"w": 5, "f": 1, "fl": 6, "run": 3, "start": 1, "stop": 1, "newloop": 1, "closeloop": 0, "settle": 1, "close": 1},
     ])
@@ -1556,6 +1961,8 @@ def random_proxy(rng, nops):
             ops.append(["w", rng.randrange(nthreads), rng.choice(DATA_RAND)])
         elif k == "f":
             ops.append(["f", rng.randrange(nthreads)])
+        elif k == "wbad":
+            ops.append(["wbad", rng.randrange(nthreads), rng.randrange(5)])
         elif k == "close":
             if closed:
                 continue
@@ -1579,17 +1986,21 @@ def random_calm_proxy(rng, nops):
             ops.append(["w", rng.randrange(nthreads), rng.choice(DATA_RAND)])
         elif r < 0.5:
             ops.append(["f", rng.randrange(nthreads)])
-        elif r < 0.85:
+        elif r < 0.80:
             ops.append(["fl"])
-        elif r < 0.91:
+        elif r < 0.84:
             ops.append(["run"])
+        elif r < 0.88:
+            ops.append(["cb"])
+        elif r < 0.91:
+            ops.append(["task"])
         elif r < 0.93:
             ops.append(["inval"])
         elif r < 0.95:
-            ops.append(rng.choice([["exit"], ["runexit"]]))
+            ops.append(rng.choice([["exit"], ["runexit"], ["exitrun"], ["wake"], ["finish"], ["wbad", 0, rng.randrange(5)]]))
         else:
             ops.append(["settle"])
-            ops.append(rng.choice([["stop"], ["start"], ["newloop"], ["closeloop"], ["exit"]]))
+            ops.append(rng.choice([["stop"], ["start"], ["newloop"], ["closeloop"], ["exit"], ["wake"], ["finish"]]))
     ops += epilogue()
     return {"kind": "proxy", "raw": rng.choice([0, 1]), "session": rng.choice(["default", "custom"]), "ops": ops}
 
@@ -1693,24 +2104,31 @@ def soak_case(rng, mode, via="proxy"):
             if rng.random() < 0.15:
                 ws.append("")
         writes.append(ws)
+    if mode == "exitrace":
+        # the last list is printed by code running in the event loop right before Application.exit()
+        t = nthreads - 1
+        writes[t] = ["[%d:%d%s]" % (t, k, rng.choice(["\n", " bye\n", "a\nb\n"])) for k in range(rng.choice([1, 1, 2, 3]))]
     return {"kind": "soak", "mode": mode, "writes": writes, "raw": rng.choice([0, 1]),
             "session": rng.choice(["default", "custom"]), "sleep": rng.choice([0.0, 0.0, 0.001]),
-            "cycles": rng.choice([1, 2, 3]), "via": via}
+            "cycles": rng.choice([1, 2, 3]), "via": via, "busy": rng.choice([0.01, 0.03, 0.05])}
 
 
 def cases(tier, rng):
     quick = tier == "quick"
     yield from exhaustive_noapp(3 if quick else 5)
-    yield from exhaustive_app(2 if quick else 4)
+    yield from exhaustive_app(2 if quick else 3)
+    yield from exhaustive_handoff(3 if quick else 4)
     yield from exhaustive_chain(3 if quick else 4)
-    for _ in range(300 if quick else 4000):
+    for _ in range(240 if quick else 4000):
         yield random_proxy(rng, rng.choice([5, 10, 20, 40]))
-    for _ in range(200 if quick else 3000):
+    for _ in range(160 if quick else 3000):
         yield random_calm_proxy(rng, rng.choice([10, 30, 60]))
-    for _ in range(150 if quick else 4000):
+    for _ in range(120 if quick else 4000):
         yield random_chain(rng, rng.choice([4, 8, 16]))
     for i in range(8 if quick else 80):
         yield lock_case(rng, rng.choice([6, 12, 24]), rng.choice([0, 1, 1, 2]))
+    for i in range(3 if quick else 60):
+        yield soak_case(rng, "exitrace")
     if not quick:
         for i in range(240):
             yield soak_case(rng, ["noapp", "app", "startstop"][i % 3])
